@@ -113,6 +113,9 @@ class SdRunner(ScenarioRunner):
             if settings:
                 if scenario_manager in settings:
                     if scenario in settings[scenario_manager]:
+                        if "constants" in settings[scenario_manager][scenario] or "points" in settings[scenario_manager][scenario]:
+                            # settings passed with a step hold from this step on and change nothing before it
+                            sc.sd_simulation.freeze_history(step)
                         if "constants" in settings[scenario_manager][scenario]:
                             constants = settings[scenario_manager][scenario]["constants"]
                             for name, value in constants.items():
